@@ -439,7 +439,9 @@ class Check:
         if os.path.exists(os.path.join(COQ, pins)):
             targets.append(pins + "o")
         t = time.time()
-        rc, out = coq_make(targets, timeout=timeout, clean=clean)
+        # `clean` (thorough tier) no longer wipes the shared tree (other checks build in it); the
+        # independent re-check of the compiled proofs is done with coqchk below instead
+        rc, out = coq_make(targets, timeout=timeout, clean=False)
         self.coverage["checker_cmd"] = "make -C coq -f Makefile.coq -j%d %s ; coqc Print Assumptions on every Theorem of %s" % (
             NPROC, " ".join(targets), base + ".v")
         self.coverage.setdefault("coq_build_s", 0)
@@ -474,6 +476,13 @@ class Check:
                                   ("axioms: " + (", ".join(ass[th]) or "none (closed under the global context)")))
         if os.path.exists(os.path.join(COQ, pins)):
             self.obligation("pinned statements " + pins, "pins", True, "compiled")
+        if clean:
+            t = time.time()
+            rc2, out2 = sh(["coqchk", "-silent", "-o", "-Q", COQ, "NV", "NV." + props_module], cwd=COQ, timeout=2400)
+            ax = out2[out2.find("Axioms"):] if "Axioms" in out2 else out2[-800:]
+            self.coverage["coqchk_s"] = round(time.time() - t, 1)
+            self.coverage["coqchk_axioms"] = ax[:1500]
+            self.obligation("coqchk NV." + props_module, "coqchk", rc2 == 0, out2[-1500:])
         return ok and not hits
 
     # ---- builds
